@@ -28,7 +28,7 @@ RULE = (
 ASSUMPTIONS = [
     "reference evaluator rt/ref_jsonpath.py and mini I-Regexp matcher rt/ref_regex.py (self-tested by setup)",
     "regular expressions restricted to the I-Regexp / Python re common dialect; subjects without CR/LF when the pattern has a dot",
-    "numbers within +-(2^53-1); no NaN/inf",
+    "number literals within +-(2^53-1) (larger integers only as document values, compared exactly); no NaN/inf",
 ]
 SHARD_TIMEOUT = {"quick": 900, "thorough": 3600}
 
@@ -39,6 +39,7 @@ U = [
     ("{a:[1]}", {"a": [1]}), ("{a:[true]}", {"a": [True]}), ("-0.0", -0.0), ("1e308", 1e308), ("2^53-1", 9007199254740991), ("[0]", [0]), ("[-0.0]", [-0.0]),
 ]
 OPS = ["==", "!=", "<", "<=", ">", ">="]
+NEAR = gen.NEAR_NUMBERS
 
 
 def plan(tier, seed):
@@ -107,6 +108,23 @@ def run(spec, ctx):
                     check_query_case(ctx, ast, d, rr.top(ast), "table", nontrivial=True)
                     ctx.cell("comparison_table", "%s|%s" % (op, form))
                     n += 1
+        # the same operator on pairs of near-equal numbers, bare and inside containers
+        for lv, rv in itertools.product(NEAR, NEAR):
+            L = ["sq", ["q", "@", [["child", [["name", "l"]]]]]]
+            R = ["sq", ["q", "@", [["child", [["name", "r"]]]]]]
+            small = lambda v: isinstance(v, float) or abs(v) < 2 ** 53  # noqa: E731
+            forms = [("qq", L, R, {"l": lv, "r": rv}), ("qq-array", L, R, {"l": [lv], "r": [rv]}), ("qq-object", L, R, {"l": {"k": [lv]}, "r": {"k": [rv]}})]
+            if small(rv):
+                forms.append(("ql", L, ["lit", rv], {"l": lv}))
+            if small(lv):
+                forms.append(("lq", ["lit", lv], R, {"r": rv}))
+            for form, a, b, el in forms:
+                if form != "qq" and spec["ops"][0] not in ("==", "!=", "<="):
+                    continue
+                ast = ["q", "$", [["child", [["index", 0]]], ["child", [["filter", ["cmp", spec["ops"][0], a, b]]]]]]
+                check_query_case(ctx, ast, [[el]], Renderer(r, plain=True).top(ast), "near", nontrivial=True)
+                ctx.cell("comparison_table", "%s|near-%s" % (spec["ops"][0], form))
+                n += 1
         ctx.count("table_cells_enumerated", n)
     elif kind == "directed":
         rr = Renderer(r, blanks=0.2)
